@@ -711,7 +711,8 @@ def run_case(ctx, case):
         rest = [n for n in order if n not in chosen]
         todo = (chosen + rest)[:cap]
         res.count("violating_classes", len(bycls))
-        res.count("violating_classes_not_minimised", len(bycls) - len(todo))
+        if not case.get("minimal"):
+            res.count("violating_classes_not_minimised", len(bycls) - len(todo))
         reported = set()
         if case.get("minimal"):
             # stored witnesses (findings / regression corpus): each violating class with its closure is already
